@@ -224,6 +224,13 @@ func init() {
 			m.sch().preemptAtLoads = a[0].(bool)
 			return nil
 		},
+		verifrtPath + ".RaceDetect": func(m *Machine, fr *frame, a []value) value {
+			s := m.sch()
+			s.race = &raceState{label: concStr(a[0]), vc: map[*task]vclock{}, objVC: map[interface{}]vclock{},
+				cells: map[interface{}]*shadowCell{}, reported: map[string]bool{}}
+			m.raceActive = true
+			return nil
+		},
 		verifrtPath + ".Yields": func(m *Machine, fr *frame, a []value) value { return int64(m.sch().yields) },
 		verifrtPath + ".MustTerminate": func(m *Machine, fr *frame, a []value) value {
 			m.path.mustTerminate = concStr(a[0])
@@ -257,13 +264,14 @@ func init() {
 		},
 
 		// ---- sync ----
-		"(*sync.Mutex).Lock":      nop,
-		"(*sync.Mutex).Unlock":    nop,
-		"(*sync.Mutex).TryLock":   func(m *Machine, fr *frame, a []value) value { return true },
-		"(*sync.RWMutex).Lock":    nop,
-		"(*sync.RWMutex).Unlock":  nop,
-		"(*sync.RWMutex).RLock":   nop,
-		"(*sync.RWMutex).RUnlock": nop,
+		"(*sync.Mutex).Lock":      mutexLock,
+		"(*sync.Mutex).Unlock":    mutexUnlock,
+		"(*sync.Mutex).TryLock":   mutexTryLock,
+		"(*sync.RWMutex).Lock":    mutexLock,
+		"(*sync.RWMutex).Unlock":  mutexUnlock,
+		"(*sync.RWMutex).RLock":   rwRLock,
+		"(*sync.RWMutex).RUnlock": rwRUnlock,
+		"(*sync.RWMutex).TryLock": mutexTryLock,
 		"(*sync.Pool).Put":        nop,
 		"(*sync.Pool).Get": func(m *Machine, fr *frame, a []value) value {
 			p := a[0].(*value)
@@ -285,6 +293,7 @@ func init() {
 			if s.wgCount[p] < 0 {
 				m.rtPanicPlain("sync: negative WaitGroup counter")
 			}
+			m.raceSync(p, false, true)
 			m.yield()
 			return nil
 		},
@@ -298,6 +307,7 @@ func init() {
 			if s.wgCount[p] < 0 {
 				m.rtPanicPlain("sync: negative WaitGroup counter")
 			}
+			m.raceSync(p, false, true)
 			m.yield()
 			return nil
 		},
@@ -305,6 +315,7 @@ func init() {
 			p := a[0].(*value)
 			s := m.sch()
 			m.blockUntil(func() bool { return s.wgCount[p] == 0 })
+			m.raceSync(p, true, false)
 			return nil
 		},
 		"time.Sleep": func(m *Machine, fr *frame, a []value) value { m.yield(); return nil },
@@ -688,37 +699,144 @@ func (p *Path) evalObservations(mdl Model) []string {
 	return out
 }
 
+// ---- mutexes ----
+//
+// Outside a path (package init) and while only one task exists a mutex cannot
+// be contended; the holder is still recorded so that a task created later
+// blocks on a mutex held across its creation.
+
+func mutexLock(m *Machine, fr *frame, a []value) value {
+	if m.path == nil || m.path.sched == nil {
+		return nil
+	}
+	s := m.sch()
+	p := a[0].(*value)
+	if p == nil {
+		m.rtPanic("invalid memory address or nil pointer dereference")
+	}
+	if s.mutexHeld[p] != nil || s.rwReaders[p] > 0 {
+		m.blockUntil(func() bool { return s.mutexHeld[p] == nil && s.rwReaders[p] == 0 })
+	}
+	s.mutexHeld[p] = s.cur
+	m.raceSync(p, true, false)
+	return nil
+}
+
+func mutexTryLock(m *Machine, fr *frame, a []value) value {
+	if m.path == nil || m.path.sched == nil {
+		return true
+	}
+	s := m.sch()
+	p := a[0].(*value)
+	if s.mutexHeld[p] != nil || s.rwReaders[p] > 0 {
+		return false
+	}
+	s.mutexHeld[p] = s.cur
+	m.raceSync(p, true, false)
+	return true
+}
+
+func mutexUnlock(m *Machine, fr *frame, a []value) value {
+	if m.path == nil || m.path.sched == nil {
+		return nil
+	}
+	s := m.sch()
+	p := a[0].(*value)
+	if s.mutexHeld[p] == nil {
+		// locked before the path began (package init) or never: Go would
+		// report "unlock of unlocked mutex" only for the latter
+		return nil
+	}
+	m.raceSync(p, false, true)
+	delete(s.mutexHeld, p)
+	return nil
+}
+
+func rwRLock(m *Machine, fr *frame, a []value) value {
+	if m.path == nil || m.path.sched == nil {
+		return nil
+	}
+	s := m.sch()
+	p := a[0].(*value)
+	if s.mutexHeld[p] != nil {
+		m.blockUntil(func() bool { return s.mutexHeld[p] == nil })
+	}
+	if s.rwReaders == nil {
+		s.rwReaders = map[*value]int{}
+	}
+	s.rwReaders[p]++
+	m.raceSync(p, true, false)
+	return nil
+}
+
+func rwRUnlock(m *Machine, fr *frame, a []value) value {
+	if m.path == nil || m.path.sched == nil {
+		return nil
+	}
+	s := m.sch()
+	p := a[0].(*value)
+	if s.rwReaders[p] > 0 {
+		s.rwReaders[p]--
+	}
+	// readers release too (over-approximation: orders readers among themselves)
+	m.raceSync(p, false, true)
+	return nil
+}
+
 // ---- atomics ----
 
-func atomicLoad(m *Machine, fr *frame, a []value) value {
+// atomicKey identifies the location of an atomic operation for the race
+// detector's happens-before bookkeeping.
+func atomicKey(a value) interface{} {
+	switch p := a.(type) {
+	case *value:
+		return p
+	case *symElemPtr:
+		return p
+	}
+	return a
+}
+
+func atomicLoad(m *Machine, fr *frame, a []value) (r value) {
 	m.softYield()
-	return m.loadAny(a[0])
+	m.raceQuiet(func() { r = m.loadAny(a[0]) })
+	m.raceSync(atomicKey(a[0]), true, true)
+	return r
 }
 func atomicStore(m *Machine, fr *frame, a []value) value {
-	m.storeAny(a[0], a[1])
+	m.raceSync(atomicKey(a[0]), true, true)
+	m.raceQuiet(func() { m.storeAny(a[0], a[1]) })
 	m.yield()
 	return nil
 }
-func atomicSwap(m *Machine, fr *frame, a []value) value {
-	old := m.loadAny(a[0])
-	m.storeAny(a[0], a[1])
+func atomicSwap(m *Machine, fr *frame, a []value) (old value) {
+	m.raceSync(atomicKey(a[0]), true, true)
+	m.raceQuiet(func() {
+		old = m.loadAny(a[0])
+		m.storeAny(a[0], a[1])
+	})
 	m.yield()
 	return old
 }
 func atomicAdd(ii intInfo) externalFn {
-	return func(m *Machine, fr *frame, a []value) value {
-		old := m.loadAny(a[0])
-		t := types.Typ[types.Int64]
-		nv := m.intBinop(token.ADD, ii, old, a[1], t)
-		m.storeAny(a[0], nv)
+	return func(m *Machine, fr *frame, a []value) (nv value) {
+		m.raceSync(atomicKey(a[0]), true, true)
+		m.raceQuiet(func() {
+			old := m.loadAny(a[0])
+			t := types.Typ[types.Int64]
+			nv = m.intBinop(token.ADD, ii, old, a[1], t)
+			m.storeAny(a[0], nv)
+		})
 		return nv
 	}
 }
 func atomicCAS(t types.Type) externalFn {
 	return func(m *Machine, fr *frame, a []value) value {
-		old := m.loadAny(a[0])
+		m.raceSync(atomicKey(a[0]), true, true)
+		var old value
+		m.raceQuiet(func() { old = m.loadAny(a[0]) })
 		if m.branchVal(m.equals(t, old, a[1])) {
-			m.storeAny(a[0], a[2])
+			m.raceQuiet(func() { m.storeAny(a[0], a[2]) })
 			return true
 		}
 		return false
